@@ -38,7 +38,7 @@ def main():
         demo = os.path.join(wt, "seed_demo.py")
         text = open(os.path.join(src, "demo.py")).read()
         # demos assert that qclib is imported from their original worktree; re-point to this one
-        text = re.sub(r"/tmp/mut2?_[A-Za-z0-9_]+", wt, text)
+        text = re.sub(r"/tmp/mut\d?_[A-Za-z0-9_]+", wt, text)
         open(demo, "w").write(text)
         rc0, out0 = run([PY, demo], wt, env)
         result["demo_original_exit"] = rc0
